@@ -77,6 +77,8 @@ pub struct Parsed {
     pub regions: Vec<(usize, usize, RegionKind)>, // (offset, len, kind)
     pub scopes: Vec<(usize, usize, String)>,      // (start, end, path)
     pub total: usize,
+    /// content of every 32-byte seed met, with the innermost object scope it was met in (usize::MAX: top level)
+    pub seed_vals: Vec<(usize, [u8; 32])>,
 }
 
 impl Parsed {
@@ -137,7 +139,11 @@ impl<'a> P<'a> {
     }
     pub fn seed32(&mut self) -> PRes {
         let off = self.pos;
-        self.take(32)?;
+        let s = self.take(32)?;
+        let mut v = [0u8; 32];
+        v.copy_from_slice(s);
+        let scope = self.scope_stack.last().copied().unwrap_or(usize::MAX);
+        self.out.seed_vals.push((scope, v));
         self.out.regions.push((off, 32, RegionKind::Seed));
         Ok(())
     }
